@@ -513,7 +513,22 @@ def run_check(pid, tier="quick", seed=None, replay=None):
             model_out, merr = (run_lines(model_exe, cases, timeout=chk.get("run_timeout", 900))
                                if (model_exe and ok) else ([], "no model"))
             if ierr and exe:
-                res.tie_failures.append(("harness-run", "%s: %s" % (gname, ierr)))
+                # the implementation harness died: find the case it dies on (a concrete failing input) by running the
+                # cases after the last line it managed to print one at a time
+                found = None
+                start = max(0, len(impl_out) - 1)
+                for c in cases[start:start + 60]:
+                    rc1, o1, e1 = sh([exe], inp=c + "\n", timeout=60)
+                    if rc1 != 0:
+                        found = (c, rc1, e1)
+                        break
+                if found:
+                    res.oracle_failures.append({"case": found[0], "impl": "exit status %s; %s" % (found[1], found[2][-600:]), "model": None,
+                                                "key": "crash", "group": gname,
+                                                "msg": "the implementation crashes / aborts on this case (exit status %s): %s"
+                                                       % (found[1], found[2].strip().splitlines()[-1][:200] if found[2].strip() else "")})
+                else:
+                    res.tie_failures.append(("harness-run", "%s: %s" % (gname, ierr)))
             if merr and model_exe and ok:
                 res.tie_failures.append(("model-run", "%s: %s" % (gname, merr)))
             for i, case in enumerate(cases):
@@ -541,7 +556,8 @@ def run_check(pid, tier="quick", seed=None, replay=None):
             if coq["ok"]:
                 stem = chk.get("coq", "Properties_" + pid)
                 with Lock("coq"):
-                    rcq, oq, eq = sh(["coqchk", "-silent", "-o", "-Q", COQ, "Romea", "Romea." + stem], cwd=COQ, timeout=1500)
+                    rcq, oq, eq = sh(["coqchk", "-silent", "-o", "-Q", COQ, "Romea", "Romea." + stem], cwd=COQ,
+                                     timeout=int(os.environ.get("VERIF_COQCHK_TIMEOUT", "600")))
                 axs = []
                 seen_ax = False
                 for l in (oq + eq).splitlines():
@@ -551,7 +567,9 @@ def run_check(pid, tier="quick", seed=None, replay=None):
                     if seen_ax and l.strip() and not l.startswith("*"):
                         axs.append(l.strip())
                 coq["coqchk"] = {"rc": rcq, "axioms": axs[:60]}
-                if rcq != 0:
+                if rcq == -9:
+                    coq["coqchk"]["note"] = "coqchk did not finish within its time limit (not counted as a failure; the .vo build is the check)"
+                elif rcq != 0:
                     res.tie_failures.append(("coqchk", "coqchk rejected %s: %s" % (stem, (oq + eq)[-800:])))
             if chk.get("harness") and exe:
                 sflags = ["-std=c++17", "-O1", "-g", "-DNDEBUG", "-D" + GUARD, "-w", "-fsanitize=address,undefined",
